@@ -25,7 +25,7 @@ const (
 	pkVariadic
 )
 
-var c19ParamNames = []string{"a", "b", "c", "e", "1x", ""}
+var c19ParamNames = []string{"a", "b", "c", "e", "1x", "", "a-b"}
 var c19ArgNames = []string{"a", "b", "c", "e", "zz"}
 
 type c19Param struct {
@@ -198,6 +198,9 @@ func c19Real(ps []c19Param) []*v2.Param {
 		case pkOptional:
 			d := fmt.Sprintf("d%d", i)
 			rp.Val = func() any { return []any{d} } // a fresh mutable value per call (Val is a factory)
+			if p.Name == "e" {
+				rp.Val = func() any { return nil } // a declared default that is nil is still a default
+			}
 		case pkVariadic:
 			rp.Variable = true
 		}
@@ -304,8 +307,29 @@ func c19Exec(ps []c19Param, src string) (accepted bool, loadErr string, obs []st
 	if strings.Join(got, ";") != strings.Join(first, ";") {
 		return true, "", first, fmt.Sprintf("second run of the loaded script binds %v, the first run bound %v", got, first)
 	}
+	// the script loaded BEFORE this one (same or another text, another parameter list) still binds what it bound
+	if c19Prev != nil {
+		if msg := c19Prev(); msg != "" {
+			c19Prev = nil
+			return true, "", first, msg
+		}
+	}
+	desc := src + " against " + c19Fmt(ps)
+	c19Prev = func() string {
+		got = nil
+		if e := sc.Run(nil); e != nil {
+			return fmt.Sprintf("the script %s, run again after a later load, fails: %v", desc, e)
+		}
+		if strings.Join(got, ";") != strings.Join(first, ";") {
+			return fmt.Sprintf("the script %s bound %v; run again after a later load it binds %v", desc, first, got)
+		}
+		return ""
+	}
 	return true, "", first, ""
 }
+
+// c19Prev re-runs the previously loaded script (nil = none).
+var c19Prev func() string
 
 func c19Expect(ps []c19Param, bound []c19Binding) []string {
 	var exp []string
@@ -314,7 +338,11 @@ func c19Expect(ps []c19Param, bound []c19Binding) []string {
 		case "arg":
 			exp = append(exp, drv.Canon(c19ArgVals[b.Arg]))
 		case "default":
-			exp = append(exp, drv.Canon([]any{fmt.Sprintf("d%d", i)}))
+			if ps[i].Name == "e" {
+				exp = append(exp, drv.Canon(nil))
+			} else {
+				exp = append(exp, drv.Canon([]any{fmt.Sprintf("d%d", i)}))
+			}
 		case "tail":
 			if len(b.Tail) == 0 {
 				exp = append(exp, "[]")
@@ -486,7 +514,7 @@ func init() {
 		ID:    "C19",
 		Level: "model_checking",
 		Rule: "every parameter list of length 0..4 over kind {required, optional, variadic} x name {a,b,c,e,1x,\"\"} through CheckFnParamDef; " +
-			"every valid list x every call shape of 0..5 arguments (positional or named a|b|c|e|zz) through ParseV2 and Run with a probe reading every parameter via GetParam and the typed getters; " +
+			"parameter names incl. malformed ones with a valid prefix; an optional parameter whose declared default is nil; every valid list x every call shape of 0..5 arguments (positional or named a|b|c|e|zz) through ParseV2 and Run with a probe reading every parameter via GetParam and the typed getters; " +
 			"distinct = distinct (verdict, reference reasons, observed bindings) triples",
 		Assumptions: []string{
 			"the function's checker calls CheckPassParam and its body reads parameters with GetParam*, as the API intends",
